@@ -1630,6 +1630,28 @@ class Engine:
                 if isinstance(op, ast.BitAnd):
                     return z3.Sum([bit(k) * (2 ** k) for k in bits]) if bits else z3.IntVal(0)
                 return x + z3.Sum([(1 - bit(k)) * (2 ** k) for k in bits]) if bits else x
+        if isinstance(op, ast.BitAnd) and (isinstance(b, int) or isinstance(a, int)) and not real:
+            # constant mask with many bits: the mask is a union of runs of ones; x & m = sum of x's bit fields
+            x, c = (za, b) if isinstance(b, int) else (zb, a)
+            if c >= 0:
+                self.oblige('safety', 'bitop.nonneg:' + txt, x >= 0)
+                out, k = z3.IntVal(0), 0
+                while (c >> k) != 0:
+                    if (c >> k) & 1:
+                        lo = k
+                        while (c >> k) & 1:
+                            k += 1
+                        out = out + pymod(floordiv(x, z3.IntVal(2 ** lo)), z3.IntVal(2 ** (k - lo))) * (2 ** lo)
+                    else:
+                        k += 1
+                return z3.simplify(out)
+        if isinstance(op, (ast.BitOr, ast.BitAnd, ast.BitXor)) and not real and za.sort() == INT and zb.sort() == INT:
+            # two symbolic operands: 64-bit two's-complement-free encoding (both obliged to be in [0, 2^64))
+            for v in (za, zb):
+                self.oblige('safety', 'bitop.range64:' + txt, z3.And(v >= 0, v < 2 ** 64))
+            ba, bb = z3.Int2BV(za, 64), z3.Int2BV(zb, 64)
+            r = ba | bb if isinstance(op, ast.BitOr) else (ba & bb if isinstance(op, ast.BitAnd) else ba ^ bb)
+            return z3.BV2Int(r, is_signed=False)
         if isinstance(op, ast.Pow) and isinstance(b, int) and 0 <= b <= 4:
             r = z3.IntVal(1)
             for _ in range(b):
